@@ -134,3 +134,11 @@ def shrink(case, still_fails, max_evals=600, max_seconds=40.0):
         improved = True
         break
   return best, evals
+
+
+def safe_repr(x, limit=600):
+  """repr that survives objects whose own formatting raises."""
+  try:
+    return repr(x)[:limit]
+  except Exception as e:   # pylint: disable=broad-except
+    return '<unprintable %s: %s>' % (type(x).__name__, type(e).__name__)
